@@ -742,7 +742,18 @@ fn client_main(shared: Arc<Shared>, mut cs: ClientState) {
                 if let Some(l) = cs.local.take() {
                     let entry = &shared.scenario.sources[l.src];
                     let variant = ((op_idx + me) % 4) as u32;
-                    let first = outcome_of_result_v(&l.text, &l.res, &mut || {}, variant).key();
+                    let ntok = l.res.buffer.token_count() as usize;
+                    let half = ntok / 2;
+                    let stop_half_way = (op_idx + me) % 2 == 0;
+                    let first = if stop_half_way {
+                        // a consumer that stops half-way, then hands a clone on
+                        let r = std::panic::catch_unwind(std::panic::AssertUnwindSafe(|| {
+                            crate::dump::partial_walk(&l.text, &l.res.buffer, half);
+                        }));
+                        if r.is_ok() { entry.expect.clone() } else { "P:partial walk panicked".to_string() }
+                    } else {
+                        outcome_of_result_v(&l.text, &l.res, &mut || {}, variant).key()
+                    };
                     let copy = LexResult {
                         buffer: l.res.buffer.clone(),
                         errors: l.res.errors.clone(),
@@ -752,7 +763,9 @@ fn client_main(shared: Arc<Shared>, mut cs: ClientState) {
                     drop(l.res);
                     // something else takes the freed blocks
                     let filler: Vec<u64> = vec![0x5A5A_5A5A_5A5A_5A5A; 64];
-                    let second = outcome_of_result_v(&l.text, &copy, &mut || {}, (variant + 1) % 4).key();
+                    // the clone is walked from where the original stopped (or in another order)
+                    let v2 = if stop_half_way { 16 + half as u32 } else { (variant + 1) % 4 };
+                    let second = outcome_of_result_v(&l.text, &copy, &mut || {}, v2).key();
                     drop(filler);
                     let mut st = shared.m.lock().unwrap();
                     st.stats.drops += 1;
